@@ -665,9 +665,12 @@ Inductive diff_item :=
 | DMissingConstraint (t n : string) | DExtraConstraint (t n : string) | DConstraintDiffers (t n : string)
 | DMissingType (n : string) | DExtraType (n : string) | DTypeLabels (n : string).
 
-(* default texts are compared after the same normalisation on both sides: surrounding blanks dropped and the
-   spellings convert_default_for_backend identifies (now() / CURRENT_TIMESTAMP ...) identified *)
-Definition canon_default (d : option string) : option string := option_map (fun s => convert_default_pg (trim s)) d.
+(* default texts are compared after the same normalisation on both sides: surrounding blanks dropped, the
+   spellings convert_default_for_backend identifies (now() / CURRENT_TIMESTAMP ...) identified, one pair of
+   enclosing quotes dropped (whether a literal is written quoted depends on the column type at the time) *)
+Definition unquote_lit (s : string) : string := if is_quoted_literal s then strip_ends s else s.
+Definition canon_default (d : option string) : option string :=
+  option_map (fun s => unquote_lit (convert_default_pg (trim s))) d.
 Definition opt_str_eqb (a b : option string) : bool := dec_b (option_eq_dec string_dec) a b.
 
 Definition ref_action_eqb (a b : ref_action) : bool := dec_b ref_action_eq_dec a b.
